@@ -100,6 +100,17 @@ def check(ctx):
             o = ordering_of(f, f.node(pt)["args"][1])
             good = satisfies(o or "Relaxed", "ACQ")
             ctx.ob("R-MO", Q + "::Position.index", "%s/tail-index-load@L" % fn, good, "tail.index.load(%s) in %s %s floor ACQ (a stealer reads the slot it guards)" % (o, fid, "meets" if good else "is BELOW"), f.where(pt))
+    # bulk_pop accounts exactly the slots it copied
+    f = ctx.fn("R-ENUM", Q + "::Queue::bulk_pop", "bulk/mark-equals-copied-range")
+    if f is not None:
+        cps = [(simplify(trace_operand(f, f.node(pt)["args"][1])), simplify(trace_operand(f, f.node(pt)["args"][2]))) for pt in sorted(ctx.an.sites(f, Call(re.escape(Q) + "::BlockNode::copy_to_bulk", transitive=False), "must"))]
+        ok = False; site = None
+        for pt in sorted(ctx.an.sites(f, Call(re.escape(Q) + "::BlockNode::mark_slots_read", transitive=False), "must")):
+            v = simplify(trace_operand(f, f.node(pt)["args"][1])); site = pt
+            while v[0] == "field" and v[2] == "(tuple)": v = simplify(v[1])
+            if v[0] == "bin" and v[1].startswith("Sub") and any(simplify(v[2]) == e and simplify(v[3]) == s0 for s0, e in cps): ok = True
+        ctx.ob("R-ENUM", Q + "::Queue::bulk_pop", "bulk/mark-equals-copied-range", ok, "bulk_pop marks exactly `end - pop_index` slots read, the range it copied" if ok else
+               "bulk_pop's mark_slots_read count is not the size of the copied range: the block is freed early (use-after-free) or never", f.where(site))
     # mark_slots_read: returns old == size
     f = ctx.fn("R-PAIR", Q + "::BlockNode::mark_slots_read", "last-reader-detect")
     if f is not None:
